@@ -118,11 +118,18 @@ def run(tier, seed, drv):
             # one schedule in three runs on tickit's own Kafka state interface (consumer loop, YAML round trip of every
             # message) over an in-process broker with the contract semantics
             hb = "kafka" if j % 3 == 2 else "held"
-            run_ = run_scenario(scn, bus=hb, seed=sd)
+            # one schedule in three of the callback-driven scenarios with latency IN REAL TIME: every loop iteration (hence every
+            # hop of a message) takes up to 0.7 ms, more than some of the callback delays the devices ask for (0, 1 ms ...);
+            # without external stimuli what the devices observe does not depend on it
+            slow = [sd, 0, 1_000, 50_000, 700_000] if (j % 3 == 1 and not scn.get("stims") and scn.get("speed", [1, 1]) == [1, 1]) else None
+            run_ = run_scenario(dict(scn, step_cost_ns=slow) if slow else scn, bus=hb, seed=sd)
             res.case(SC.scn_key(scn) + str(sd), nontrivial=len(run_["trace"].of("update")) > len(S.devices(scn)))
-            res.count("sampled-orders" + ("-kafka-interface" if hb == "kafka" else ""))
+            res.count("sampled-orders" + ("-kafka-interface" if hb == "kafka" else "") + ("-real-time-latency" if slow else ""))
             if run_["result"][0] != "ok":
-                res.violate(V("run-did-not-complete", str(run_["result"]), site="run"), {"scenario": scn, "bus": hb, "seed": sd})
+                res.violate(V("run-did-not-complete", str(run_["result"]), site="run"), {"scenario": scn, "bus": hb, "seed": sd, "step_cost_ns": slow})
+                continue
+            if slow:
+                compare_obs(base, run_, f"sync vs {hb} seed {sd} with real-time latency", scn, res, {"bus": hb, "held_seed": sd, "step_cost_ns": slow})
                 continue
             if compare_obs(base, run_, f"sync vs {hb} seed {sd}", scn, res, {"bus": hb, "held_seed": sd}):
                 SC.check_run(scn, run_, drv, res, monitors_on=(), corr=("inputs", "ticks"), case_extra={"bus": hb, "held_seed": sd})
@@ -142,6 +149,7 @@ def replay(payload, drv):
         from buses import PrefixChooser
         other = run_scenario(scn, bus="held", chooser=PrefixChooser(c["prefix"]))
     else:
-        other = run_scenario(scn, bus=c.get("bus", "held") if c.get("bus") in ("held", "kafka") else "held", seed=c.get("held_seed", 0))
+        other = run_scenario(dict(scn, step_cost_ns=c["step_cost_ns"]) if c.get("step_cost_ns") else scn,
+                             bus=c.get("bus", "held") if c.get("bus") in ("held", "kafka") else "held", seed=c.get("held_seed", 0))
     compare_obs(base, other, "replay", scn, res, {})
     return {"violations": [v["record"] for v in res.violations]}
